@@ -163,9 +163,18 @@ TAck == /\ Is("ack") /\ Adv /\ Keep
         /\ base'[E] = Ev.base
         /\ (Ev.valid = 1) = AckResult(base[E], top[E], Ev.seq, S).valid
 
+\* The ACK was ignored by processACK's empty-queue pre-check.  The pre-check
+\* is not under the lock addPacket takes: it saw the queue empty iff the queue
+\* was empty at some point since R's previous event, and since only S adds,
+\* iff it was empty right after that event (szR) or is empty now.
 TAckEmpty == /\ Is("ackEmpty") /\ Adv /\ Keep
              /\ rcur[E].k = "ACK" /\ rcur[E].seq = Ev.seq
-             /\ RAckEmpty(E)
+             /\ (szR[E] = 0 \/ Size(E) = 0)
+             /\ rcur' = [rcur EXCEPT ![E] = None]
+             /\ szR' = [szR EXCEPT ![E] = Size(E)]
+             /\ UNCHANGED <<base, top, buf, rseq, lastNack, ch, spc, ping, rsNext,
+                            rsTop, rsRet, inbox, nAcc, nPing, dlv, drops, dups,
+                            nRs, nInj, uTop, uBase, uR>>
 
 TNack == /\ Is("nack") /\ Adv /\ Keep
          /\ rcur[E].k = "NACK" /\ rcur[E].seq = Ev.seq
